@@ -222,6 +222,12 @@ func FamilyAPI(tier string) []*Scenario {
 	for _, name := range sortedKeys(conc) {
 		out = append(out, &Scenario{Family: "F-api", Name: "api-conc-" + name, Plans: []PlanSpec{plan}, Threads: conc[name], MaxSubmitSec: 10, MaxTicks: 10, PostWaitTicks: 1})
 	}
+	// slow store answers: between the answer to an API caller's Read and the caller acting on it anything may happen,
+	// including a complete execution of the plan started by another caller (short plan: one action)
+	short := PlanSpec{Blocks: []BlockSpec{{Seqs: []SeqSpec{Seq(A())}}}}
+	for _, name := range []string{"start|start", "start,wait|start", "start,start|wait", "start,wait|plan,start"} {
+		out = append(out, &Scenario{Family: "F-api", Name: "api-conc-slowread-" + name, Plans: []PlanSpec{short}, Threads: conc[name], SlowReads: true, MaxSubmitSec: 10, MaxTicks: 10, PostWaitTicks: 1})
+	}
 	// submission by the driver itself, valid and invalid
 	out = append(out, &Scenario{Family: "F-api", Name: "api-submit", Plans: []PlanSpec{plan}, NoPresubmit: true, MaxTicks: 6,
 		Threads: [][]APICall{{{Op: "submitbad", Plan: 0}, {Op: "start", Plan: 0}, {Op: "submit", Plan: 0}, {Op: "start", Plan: 0}, {Op: "wait", Plan: 0}, {Op: "start", Plan: 0}}}})
@@ -233,7 +239,7 @@ func init() {
 		ID:    "C12",
 		Level: "model_checking",
 		Rule: "family F-api: (i) ALL sequential histories up to length 3 (4) over {Start, Wait, Plan, Status on a known and on an unknown id, sleep past maxSubmit} issued by a driver thread while the engine runs, " +
-			"(ii) two and three driver threads issuing Start/Wait/Plan/Status on the same plan, (iii) submission (valid/invalid) by the driver; every order of visible operations (API calls, storage reads/writes, plugin calls) within the deviation bound " +
+			"(ii) two and three driver threads issuing Start/Wait/Plan/Status on the same plan, also with slow store answers (a second scheduling point between the answer to an API caller's Read and the caller acting on it), (iii) submission (valid/invalid) by the driver; every order of visible operations (API calls, storage reads/writes, plugin calls) within the deviation bound " +
 			"(unbounded for the concurrent scenarios in the thorough tier); a panic of an API call is caught in the driver thread, a panic or exit elsewhere kills the worker and is reported from its write-ahead schedule; " +
 			"distinct_nontrivial = distinct states in which two or more logical threads were enabled",
 		Assumptions: []string{"a free worker-pool runner always exists (64 runners)", "I/O granularity: the window between Start's validation and the registration of the waiter is one atomic step unless another Start's storage read is interleaved"},
